@@ -9,8 +9,20 @@ SSE handler, streamable HTTP handler stateful / stateful without session ids / s
 connection to the same Server through a second streamable endpoint; HTTP through an in-process RoundTripper, every scenario
 in a testing/synctest bubble), then lists and calls tools. The TLA+ monitor NegotiateMon judges the recorded
 outcomes clause by clause (verdict) and compares them with Expected (drift).
+
+Interleaving dimension (spec/NegotiateConc.tla): ONE Server published over several transports with several connections
+in progress at once. TLC checks the per-connection clauses (ConcSound, ConcNoModernOverLegacyTransport, ConcExact,
+ConcFallback, ConcUsable) and NonInterference over every interleaving of the steps connect / dispatch / answer / finish
+of 2 connections (thorough: also 3, finish merged into answer), exports every complete scenario (cases of the
+connections + schedule), and MUST find the what-if NegotiateConc_wshared.cfg (the list of versions kept once per Server,
+overwritten by every Server.Connect) violating ConcNoModernOverLegacyTransport (thorough: also ConcExact) - the
+sensitivity witness of the schedule family. harness/mcp/c07_conc_test.go pins every scenario with gates on one real
+Server behind real transports; every connection yields one observation line judged by the same monitor clauses against
+its OWN case. quick: all schedules x the pairs of default requests over transports that answer the version question
+differently + a seeded sample of the other pairs; thorough: everything.
 """
-import json, os
+import json, os, random
+from concurrent.futures import ThreadPoolExecutor
 import vlib
 
 PID = "C07"
@@ -89,6 +101,79 @@ def case_key(c):
     return json.dumps(c, sort_keys=True) if "adv" not in c else json.dumps(dict(c, adv=sorted(c["adv"])), sort_keys=True)
 
 
+CONC_QUICK_REST = 150  # quick: seeded sample of the scenarios outside the core
+LEGACY_ONLY_FILTER = ("sse", "stateful", "statefulnosid")
+
+
+def conc_class(c):
+    """transport class of a connection of a concurrent scenario"""
+    if c["wrap"]:
+        return "%s/wrap%s" % (c["tr"], adv_code(c))
+    return c["tr"]
+
+
+def conc_filter(c):
+    """what Server.Connect computes for the transport of this connection (NegotiateDefs!TransportFilter)"""
+    if c["wrap"]:
+        return frozenset(c["adv"])
+    return frozenset(x for x in V if x not in MODERN) if c["tr"] in LEGACY_ONLY_FILTER else frozenset(V)
+
+
+def conc_first(c):
+    return "connect" if c["tr"] in ("mem", "io", "sse") else "dispatch"
+
+
+def conc_window(scn, who):
+    """the steps of OTHER connections between the step in which Server.Connect bound the session that answers `who`'s
+    first request and that answer"""
+    sched = [tuple(x) for x in scn["sched"]]
+    c = scn["conns"]["ABC".index(who)]
+    a, b = sched.index((conc_first(c), who)), sched.index(("answer", who))
+    return sorted({st for st, w in sched[a + 1:b] if w != who})
+
+
+def conc_overlap(scn, who):
+    """some step of another connection that runs Server.Connect (its first step; on a streamable endpoint every step that
+    POSTs) falls between the binding of `who`'s answering session and `who`'s answer"""
+    sched = [tuple(x) for x in scn["sched"]]
+    c = scn["conns"]["ABC".index(who)]
+    a, b = sched.index((conc_first(c), who)), sched.index(("answer", who))
+    for st, w in sched[a + 1:b]:
+        if w == who:
+            continue
+        o = scn["conns"]["ABC".index(w)]
+        lazy = conc_first(o) == "dispatch"
+        if st == conc_first(o) or (lazy and st == ("finish" if scn["fine"] else "answer")):
+            return True
+    return False
+
+
+def conc_sig(inv, e, scn):
+    """the abstract failing case of a connection of a concurrent scenario: its own class and failure (as for a cell of the
+    one-connection matrix), the transport classes of the other connections, and whether another connection's
+    Server.Connect fell between the binding of its session and its answer"""
+    who = e["who"]
+    others = sorted({conc_class(c) for i, c in enumerate(scn["conns"]) if "ABC"[i] != who})
+    return "conc[%d]:%s:others=%s:%s" % (len(scn["conns"]), sig_of(inv, e), "+".join(others),
+                                         "overlapped" if conc_overlap(scn, who) else "not-overlapped")
+
+
+def conc_pinned(scn, e):
+    """machinery: the replay followed the schedule - the events of the connection happened during the steps they
+    belong to (Server.Connect for the session that answers its first request in its first step, first request parked at
+    the Server's middleware in its dispatch step, let on and answered in its answer step, outcome recorded in its last
+    step)"""
+    who = e["who"]
+    sched = [tuple(x) for x in scn["sched"]]
+    at = dict((kv.split("=")[0], int(kv.split("=")[1])) for kv in e["at"].split(",") if kv)
+    last = sched.index(("finish", who)) if scn["fine"] else sched.index(("answer", who))
+    c = scn["conns"]["ABC".index(who)]
+    want = {"bound": sched.index((conc_first(c), who)), "dispatched": sched.index(("dispatch", who)),
+            "released": sched.index(("answer", who)), "got": sched.index(("answer", who)), "done": last}
+    got = {k: at.get(k) for k in want}
+    return got == want, at, want
+
+
 def run(tier, seed, replay):
     v = vlib.Verdict(PID, tier, seed)
     v.assumptions = [
@@ -110,13 +195,31 @@ def run(tier, seed, replay):
         "shared-server cells: one Server behind two streamable handlers; a default client connects, lists and closes on "
         "the other endpoint first, the judged connection is the second one (both orders); 'statefulnosid' = stateful "
         "handler whose ServerOptions.GetSessionID returns \"\"",
+        "interleavings: N connections in progress on ONE Server behind several transports at once (pipes with / without a "
+        "ProtocolVersionSupporter wrapper, one SSEHandler, one streamable handler per kind), each cut into the steps connect / "
+        "dispatch / answer / finish of NegotiateConc.tla; the steps are pinned by a gate at the client's end of the transport "
+        "(pipe tap / RoundTripper: first request, everything after the first answer) and a receiving middleware of the Server that "
+        "parks the first request reaching the method handlers, inside a synctest bubble (synctest.Wait after every step); "
+        "interleavings INSIDE a step (e.g. inside Server.Connect) are not enumerated; requested versions are the default and one "
+        "legacy version, the peer is the SDK server with discovery available; a connection without an outcome after the last "
+        "step is a machinery error",
     ]
     out = vlib.outdir(PID)
     wd = vlib.scratch("tlc-")
     # quick: NegotiateDefs!CoreCaseSet (every value of every dimension, the peer-answer dimensions crossed with each
     # other and with every request and transport); thorough: the whole product (FullCaseSet)
     cfg = "Negotiate.cfg" if tier == "quick" else "Negotiate_full.cfg"
-    res = vlib.run_tlc("Negotiate", cfg, workdir=wd, workers=1, timeout=300, heap_gb=2)
+    # the TLC jobs are independent of each other: run them side by side (one worker each)
+    conc_cfgs = ["NegotiateConc.cfg"] + (["NegotiateConc3.cfg"] if tier == "thorough" and not replay else [])
+    whatifs = [("NegotiateConc_wshared.cfg", "ConcNoModernOverLegacyTransport")]
+    if tier == "thorough":
+        whatifs.append(("NegotiateConc_wshared_exact.cfg", "ConcExact"))
+    with ThreadPoolExecutor(max_workers=4) as ex:
+        fut = ex.submit(vlib.run_tlc, "Negotiate", cfg, workdir=wd, workers=1, timeout=600, heap_gb=2)
+        cfut = {c: ex.submit(vlib.run_tlc, "NegotiateConc", c, workers=1, timeout=600, heap_gb=2,
+                             extra_args=("-noGenerateSpecTE",)) for c in conc_cfgs + [w for w, _ in whatifs]}
+        res = fut.result()
+        cres = {c: f.result() for c, f in cfut.items()}
     vlib.tlc_must_pass(res, "Negotiate")
     if not res.ok:
         raise vlib.MachineryError("Negotiate design evaluation failed: " + (res.violation or res.stdout[-2000:]))
@@ -131,10 +234,53 @@ def run(tier, seed, replay):
     leads = vlib.read_ndjson(os.path.join(wd, "leads.ndjson")) if os.path.exists(os.path.join(wd, "leads.ndjson")) else []
     if len(leads) != info["leads"]:
         raise vlib.MachineryError("lead export incomplete: %d of %d" % (len(leads), info["leads"]))
-    cases = os.path.join(out, "cases.ndjson")
+    # ---- interleaving dimension: scenarios (cases of the connections + schedule) from the state machine
+    for w, inv in whatifs:
+        vlib.tlc_must_pass(cres[w], w)
+        if cres[w].violation != inv:
+            raise vlib.MachineryError("what-if %s (one list of versions per Server, overwritten by every Server.Connect) must "
+                                      "violate %s; got %s" % (w, inv, cres[w].violation or "no violation"))
+        v.add_tlc("NegotiateConc(what-if %s: one list per Server; expected to violate %s)" % (w, inv), cres[w])
+    all_scn = []
+    conc_counts = {}
+    for c in conc_cfgs:
+        sres = cres[c]
+        vlib.tlc_must_pass(sres, c)
+        if not sres.ok:
+            raise vlib.MachineryError("%s: design check failed: %s" % (c, sres.violation or sres.stdout[-2000:]))
+        v.add_tlc("NegotiateConc(%s: per-connection clauses of Holds, NonInterference; export of complete scenarios)" % c, sres)
+        sch = [p for p in sres.printed if isinstance(p, dict) and "sched" in p and "conns" in p]
+        n = sch[0]["n"] if sch else 0
+        if not sch or not any(p["sequential"] for p in sch) or not all(any(p["differing"][i] > 0 for p in sch) for i in range(n)):
+            raise vlib.MachineryError("%s: scenario export is vacuous (%d scenarios)" % (c, len(sch)))
+        conc_counts[c] = {"scenarios": len(sch), "states": sres.distinct}
+        all_scn += sch
     if replay:
         rep = json.load(open(replay))
-        vlib.write_ndjson(cases, [rep["replay"]["c"]])
+        scenarios = [dict(rep["replay"]["scenario"])] if rep["replay"].get("scenario") else []
+        conc_rule = "replay of one recorded scenario"
+    elif tier == "thorough":
+        scenarios = all_scn
+        conc_rule = "every scenario TLC exported: " + ", ".join("%s %d" % (c, k["scenarios"]) for c, k in conc_counts.items())
+    else:
+        def core(p):
+            # every connection asks for the latest version (discover first) and the transports of the scenario do not all
+            # answer the version question alike
+            return all(c["req"] == "default" for c in p["conns"]) and len({conc_filter(c) for c in p["conns"]}) > 1
+        rnd = random.Random(seed * 7919 + 7)
+        core_scn = [p for p in all_scn if core(p)]
+        rest = [p for p in all_scn if not core(p)]
+        scenarios = core_scn + rnd.sample(rest, min(CONC_QUICK_REST, len(rest)))
+        conc_rule = ("all schedules x the pairs of default requests over transports with different version support (%d scenarios) "
+                     "+ %d seeded others of %d" % (len(core_scn), len(scenarios) - len(core_scn), len(rest)))
+    scenarios = [dict(fine=p["fine"], n=p["n"], sched=p["sched"], conns=p["conns"], scn=i + 1) for i, p in enumerate(scenarios)]
+    nconc = sum(len(sc["conns"]) for sc in scenarios)
+    concin = os.path.join(out, "conc.ndjson")
+    vlib.write_ndjson(concin, scenarios)
+
+    cases = os.path.join(out, "cases.ndjson")
+    if replay:
+        vlib.write_ndjson(cases, [rep["replay"]["c"]] if not rep["replay"].get("scenario") else [])
     else:
         os.replace(os.path.join(wd, "cases.ndjson"), cases)
     obs = os.path.join(out, "obs.ndjson")
@@ -143,9 +289,10 @@ def run(tier, seed, replay):
             os.remove(f)
     # rep 0 is the plain setup; further reps (thorough) vary tool sets, unknown strings and the client's handlers
     reps = 1 if tier == "quick" else 4
-    rc, gout, wall = vlib.go_test("mcp", "^TestVerif_C07$", ["mcp/c07_negotiate_test.go"], timeout=600 if tier == "quick" else 1500,
+    rc, gout, wall = vlib.go_test("mcp", "^TestVerif_C07$", ["mcp/c07_negotiate_test.go", "mcp/c07_conc_test.go"],
+                                  timeout=900 if tier == "quick" else 2400,
                                   env={"VERIF_IN": cases, "VERIF_OUT": obs, "VERIF_SEED": seed, "VERIF_REPS": reps,
-                                       "VERIF_TIER": tier})
+                                       "VERIF_TIER": tier, "VERIF_CONC_IN": concin})
     vlib.go_must_build(rc, gout, PID)
     if rc != 0:
         inflight = ""
@@ -156,14 +303,34 @@ def run(tier, seed, replay):
         if "panic:" in gout and "blocked goroutines remain" not in gout and "deadlock:" not in gout and "test timed out" not in gout:
             cell = inflight.split(" ", 2)[2] if inflight.count(" ") >= 2 else "{}"
             c = json.loads(cell)
+            if inflight.startswith("conc "):
+                v.violation("panic:conc[%d]:tr=%s" % (len(c["conns"]), "+".join(sorted({conc_class(x) for x in c["conns"]}))),
+                            "Go panic while replaying the concurrent scenario " + cell, {"scenario": c, "output": gout[-3000:]})
+                return v.finish()
             v.violation("panic:tr=%s|req=%s" % (c.get("tr"), c.get("req")),
                         "Go panic while connecting / using the session in cell " + cell,
                         {"c": c, "output": gout[-3000:]})
             return v.finish()
         raise vlib.MachineryError("C07 harness failed (in flight: %s):\n%s" % (inflight, gout[-3000:]))
     rows = vlib.read_ndjson(obs)
-    if not replay and len(rows) != ncases * reps:
-        raise vlib.MachineryError("harness ran %d of %d scenarios" % (len(rows), ncases * reps))
+    nmatrix = len(rows) - nconc
+    if (not replay and nmatrix != ncases * reps) or nmatrix < 0:
+        raise vlib.MachineryError("harness ran %d of %d scenarios" % (len(rows), ncases * reps + nconc))
+    # the connections of the concurrent scenarios: rows after the one-connection cells, scenario by scenario, in name order
+    scn_of = {}
+    k = nmatrix
+    for sc in scenarios:
+        for i in range(len(sc["conns"])):
+            e = rows[k]
+            if e.get("scn") != sc["scn"] or e.get("who") != "ABC"[i]:
+                raise vlib.MachineryError("row %d is not connection %s of scenario %d" % (k + 1, "ABC"[i], sc["scn"]))
+            ok, at, want = conc_pinned(sc, e)
+            if not ok:
+                raise vlib.MachineryError("scenario %d (%s): the replay of connection %s did not follow the schedule %s: events at %s, "
+                                          "expected %s" % (sc["scn"], "+".join(conc_class(c) for c in sc["conns"]), e["who"],
+                                                           sc["sched"], at, want))
+            scn_of[k + 1] = sc
+            k += 1
     fails, mres = vlib.run_monitor("NegotiateMon", "NegotiateMon.cfg", obs, timeout=600, heap_gb=2)
     v.add_tlc("NegotiateMon", mres)
     v.cov["traces_validated_against_impl"] = len(rows)
@@ -172,7 +339,8 @@ def run(tier, seed, replay):
                                         if r["o"]["nDisc"] > 0 or r["o"]["version"] != r["reqstr"]})
     v.cov["rule"] = ("matrix enumerated by TLC (NegotiateDefs!%s), every cell connected on the real SDK; " % (
                          "CoreCaseSet" if tier == "quick" else "FullCaseSet") +
-                     "non-trivial = a discover round happened or the negotiated version differs from the requested string")
+                     "non-trivial = a discover round happened or the negotiated version differs from the requested string; "
+                     "concurrent scenarios (NegotiateConc): " + conc_rule)
     v.cov["exhaustive"] = not replay
     v.cov["cells"] = ncases
     v.cov["cells_of_full_matrix"] = info.get("fullMatrix")
@@ -198,6 +366,21 @@ def run(tier, seed, replay):
     v.cov["connects_refused_for_unsupported_initialize_answer"] = sum(
         1 for r in rows if r["o"]["kind"] == "error" and r["o"]["sentInit"] and r["c"].get("ians", "honest") != "honest")
     v.cov["http_route"] = "in-process RoundTripper + testing/synctest (no httptest server)"
+    crow = rows[nmatrix:]
+    v.cov["concurrent"] = {
+        "tlc": conc_counts, "scenarios_replayed": len(scenarios), "connections": nconc, "rule": conc_rule,
+        "scenarios_with_differing_overlap": sum(
+            1 for sc in scenarios if any(conc_window(sc, "ABC"[i]) and len({conc_filter(c) for c in sc["conns"]}) > 1
+                                         for i in range(len(sc["conns"])))),
+        "sessions": sum(1 for r in crow if r["o"]["kind"] == "session"),
+        "modern_sessions": sum(1 for r in crow if r["o"]["version"] in MODERN),
+        "fallbacks_after_discover": sum(1 for r in crow if r["o"]["nDisc"] > 0 and r["o"]["sentInit"]),
+        "by_class": {},
+        "whatif_server_wide_list": "; ".join("%s violates %s (as required)" % (w, inv) for w, inv in whatifs),
+    }
+    for r in crow:
+        kcls = conc_class(r["c"])
+        v.cov["concurrent"]["by_class"][kcls] = v.cov["concurrent"]["by_class"].get(kcls, 0) + 1
     for r in rows[:: max(1, len(rows) // 6)][:6]:
         v.sample({"cell": cell_of(r), "got": got_of(r), "methods": r["o"]["methods"], "listOK": r["o"]["listOK"],
                   "callOK": r["o"]["callOK"]})
@@ -207,18 +390,42 @@ def run(tier, seed, replay):
     # and the plainest peer that shows it (honest initialize answer, text body)
     def _rank(f):
         c = rows[f["line"] - 1]["c"]
-        return (len(c["adv"]) == 0, c["req"] not in V and c["req"] != "default", c.get("ians", "honest") != "honest",
+        return (f["line"] in scn_of and len(scn_of[f["line"]]["conns"]) > 2, len(c["adv"]) == 0, c["req"] not in V and c["req"] != "default", c.get("ians", "honest") != "honest",
                 c.get("dbody", "none") not in ("none", "text"), c["json"] or c["store"], f["line"])
     fails.sort(key=_rank)
     # a modern version on a legacy-only transport breaks Sound as well (the transport does not support it): the
     # specific clause names the row
     nomodern = {f["line"] for f in fails if f["monfail"] == "NoModernOverLegacyTransport"}
     fails = [f for f in fails if not (f["monfail"] == "Sound" and f["line"] in nomodern)]
+    # a connection of a concurrent scenario that ends up with a version it must not have usually breaks several clauses at
+    # once (the session is not usable, no fall-back happened): one violation per connection, named by the first clause in
+    # the order of Holds; the others are listed in the description
+    order = ["NoModernOverLegacyTransport", "Sound", "Exact", "Fallback", "Usable"]
+    also = {}
+    for f in fails:
+        if f["line"] in scn_of and f["monfail"] != "drift":
+            also.setdefault(f["line"], []).append(f["monfail"])
+    for l in also:
+        also[l].sort(key=order.index)
+    fails = [f for f in fails if f["line"] not in also or f["monfail"] in ("drift", also[f["line"]][0])]
     for f in fails:
         e = rows[f["line"] - 1]
+        sc = scn_of.get(f["line"])
         if f["monfail"] == "drift":
-            v.drift.append("outcome differs from Negotiate!Expected: %s:%s (nDisc=%d, sentInit=%s, list=%s, call=%s) %s" % (
-                cell_of(e), got_of(e), e["o"]["nDisc"], e["o"]["sentInit"], e["o"]["listOK"], e["o"]["callOK"], e["o"]["err"][:120]))
+            v.drift.append("outcome differs from Negotiate!Expected: %s:%s (nDisc=%d, sentInit=%s, list=%s, call=%s) %s%s" % (
+                cell_of(e), got_of(e), e["o"]["nDisc"], e["o"]["sentInit"], e["o"]["listOK"], e["o"]["callOK"], e["o"]["err"][:120],
+                " [connection %s of concurrent scenario %s, schedule %s]" % (
+                    e["who"], "+".join(conc_class(c) for c in sc["conns"]), sc["sched"]) if sc else ""))
+        elif sc:
+            failed_cases.add(case_key(e["c"]))
+            v.violation(conc_sig(f["monfail"], e, sc),
+                        "connection %s of a concurrent scenario on ONE real Server violates %s: %s got %s (client issued %s, on the wire %s); "
+                        "connections %s, schedule %s %s" % (
+                            e["who"], "+".join(also[f["line"]]), cell_of(e), got_of(e), ",".join(e["o"]["methods"]),
+                            ",".join(e["o"].get("wire", [])) or "-",
+                            " ".join("%s=%s(%s)" % ("ABC"[i], conc_class(c), c["req"]) for i, c in enumerate(sc["conns"])),
+                            " ".join("%s(%s)" % (st, w) for st, w in sc["sched"]), e["o"]["err"][:200]),
+                        {"c": e["c"], "o": e["o"], "who": e["who"], "scenario": sc})
         else:
             failed_cases.add(case_key(e["c"]))
             v.violation(sig_of(f["monfail"], e),
